@@ -1170,3 +1170,46 @@ func init() {
 		return nil
 	}
 }
+
+func init() {
+	// sync.Map with concrete keys (a per-run table behind the map's address)
+	key := func(v value) string {
+		switch k := v.(type) {
+		case iface:
+			return k.t.String() + ":" + toStringPlain(k.v)
+		}
+		return toStringPlain(v)
+	}
+	tbl := func(fr *frame, args []value) map[string]value {
+		p := args[0].(*value)
+		m := fr.r.syncMaps[p]
+		if m == nil {
+			m = map[string]value{}
+			fr.r.syncMaps[p] = m
+		}
+		return m
+	}
+	intrinsics["(*sync.Map).Load"] = func(fr *frame, args []value) value {
+		v, ok := tbl(fr, args)[key(args[1])]
+		if !ok {
+			return tuple{iface{}, tFalse}
+		}
+		return tuple{v, tTrue}
+	}
+	intrinsics["(*sync.Map).Store"] = func(fr *frame, args []value) value {
+		tbl(fr, args)[key(args[1])] = args[2]
+		return nil
+	}
+	intrinsics["(*sync.Map).LoadOrStore"] = func(fr *frame, args []value) value {
+		m := tbl(fr, args)
+		if v, ok := m[key(args[1])]; ok {
+			return tuple{v, tTrue}
+		}
+		m[key(args[1])] = args[2]
+		return tuple{args[2], tFalse}
+	}
+	intrinsics["(*sync.Map).Delete"] = func(fr *frame, args []value) value {
+		delete(tbl(fr, args), key(args[1]))
+		return nil
+	}
+}
